@@ -4,8 +4,13 @@ package harness
 // C05 — client: every operation completes exactly once under cancel, Close and failure.
 
 import (
+	"context"
 	"encoding/json"
+	"sync"
+	"time"
+
 	"fmt"
+	"github.com/creachadair/jrpc2"
 	"math/rand"
 	"strings"
 	"testing"
@@ -35,12 +40,21 @@ func cliProject(res *Result, sc *cliScenario, r *cliRun, prop string) (string, *
 	ops := map[string]bool{}
 	stoppedKind := ""
 	shutdown := false
+	cancelledTags := map[string]bool{}
+	deliveredIDs := map[string]bool{}
+	consumed := map[string]bool{} // ids whose operation has returned
+	tagOfID := map[string]string{}
+	for tg, id := range r.ids {
+		tagOfID[id] = tg
+	}
 	for i, e := range r.Log {
 		f := strings.Fields(e)
 		if f[0] == "quiescent" {
 			shutdown = true
 		}
 		switch f[0] {
+		case "cancel":
+			cancelledTags[f[1]] = true
 		case "call", "callres", "notify", "batch":
 			ops[f[1]] = true
 		case "peer-send":
@@ -90,6 +104,7 @@ func cliProject(res *Result, sc *cliScenario, r *cliRun, prop string) (string, *
 							continue
 						}
 						npay++
+						deliveredIDs[p[0]] = true
 						txt, _ := hexDecode(p[2])
 						ex.payloads[npay] = p[1] + "/" + string(txt)
 						trace = append(trace, fmt.Sprintf("d:%s:%d", p[0], npay))
@@ -98,6 +113,13 @@ func cliProject(res *Result, sc *cliScenario, r *cliRun, prop string) (string, *
 			case "cli.wait.enter":
 				if len(f) > 2 {
 					trace = append(trace, "w:"+f[2])
+					id := f[2]
+					tg := tagOfID[id]
+					opTag := strings.SplitN(tg, ".", 2)[0]
+					if !deliveredIDs[id] && !consumed[id] && !cancelledTags[opTag] && stoppedKind == "" {
+						res.Violatef("a request's context ended although nobody cancelled it, no reply had arrived and the client was running", in,
+							"request id %s (%s); log: %s", id, tg, shortLog(r.Log))
+					}
 				}
 			case "cli.close.enter":
 				trace = append(trace, "x:1")
@@ -132,6 +154,7 @@ func cliProject(res *Result, sc *cliScenario, r *cliRun, prop string) (string, *
 					p := strings.SplitN(en, ":", 2)
 					id := strings.TrimPrefix(p[0], "id=")
 					trace = append(trace, "o:"+id)
+					consumed[id] = true
 					ex.obsTags = append(ex.obsTags, tag+"#"+id)
 					ex.obsGot = append(ex.obsGot, p[1])
 				}
@@ -150,6 +173,7 @@ func cliProject(res *Result, sc *cliScenario, r *cliRun, prop string) (string, *
 				continue
 			}
 			trace = append(trace, "o:"+id)
+			consumed[id] = true
 			ex.obsTags = append(ex.obsTags, tag)
 			ex.obsGot = append(ex.obsGot, got)
 		}
@@ -356,6 +380,18 @@ func runCliProperty(t *testing.T, res *Result, prop string, faults bool) {
 				runOne(sc, seededPick(rng))
 			}
 		}
+		if prop == "C05" {
+			// a callback handler is still running when the peer hangs up and Close is called
+			for _, sc := range []*cliScenario{
+				{Callbacks: true, Ops: []cliOp{{Kind: "raw", Arg: `{"jsonrpc":"2.0","id":77,"method":"srvcall","params":[1]}`}, {Kind: "peerclose"}, {Kind: "close"}}},
+				{Callbacks: true, Ops: []cliOp{{Kind: "call", Arg: "t1"}, {Kind: "raw", Arg: `{"jsonrpc":"2.0","id":78,"method":"srvcall"}`}, {Kind: "close"}, {Kind: "reply", Arg: "t1"}}},
+				{Ops: []cliOp{{Kind: "batch", Arg: "t1", Arg2: "ccc"}, {Kind: "reply", Arg: "t1.1"}, {Kind: "cancel", Arg: "t1"}, {Kind: "reply", Arg: "t1.0,t1.2"}}},
+			} {
+				for j := 0; j < pick(40, 400); j++ {
+					runOne(sc, seededPick(rng))
+				}
+			}
+		}
 		if prop == "C04" {
 			// batch whose replies come in separate messages, reversed; duplicate in between
 			sc := &cliScenario{Ops: []cliOp{{Kind: "batch", Arg: "t1", Arg2: "cccc"}, {Kind: "reply", Arg: "t1.0"}, {Kind: "reply", Arg: "t1.3,t1.2", Arg2: "dup"}, {Kind: "reply", Arg: "t1.1", Arg2: "err"}}}
@@ -376,10 +412,95 @@ func runCliProperty(t *testing.T, res *Result, prop string, faults bool) {
 	}
 }
 
+// c04Stress: many goroutines issue batches concurrently against an echoing peer, with real
+// parallelism: ids on the wire must be pairwise distinct and every entry must get its own echo.
+func c04Stress(res *Result, rounds int) {
+	for round := 0; round < rounds; round++ {
+		peer, cch := newVPair()
+		cli := jrpc2.NewClient(cch, nil)
+		seen := map[string]int{}
+		var mu sync.Mutex
+		go func() {
+			for {
+				b, err := peer.Recv()
+				if err != nil {
+					return
+				}
+				var reqs []struct {
+					ID     json.RawMessage `json:"id"`
+					Params json.RawMessage `json:"params"`
+				}
+				if json.Unmarshal(b, &reqs) != nil {
+					continue
+				}
+				var out []string
+				mu.Lock()
+				for _, q := range reqs {
+					seen[string(q.ID)]++
+					out = append(out, fmt.Sprintf(`{"jsonrpc":"2.0","id":%s,"result":%s}`, q.ID, q.Params))
+				}
+				mu.Unlock()
+				peer.Send([]byte("[" + strings.Join(out, ",") + "]"))
+			}
+		}()
+		var wg sync.WaitGroup
+		bad := make(chan string, 64)
+		for g := 0; g < 8; g++ {
+			wg.Add(1)
+			go func(g int) {
+				defer wg.Done()
+				for k := 0; k < 6; k++ {
+					specs := make([]jrpc2.Spec, 16)
+					for i := range specs {
+						specs[i] = jrpc2.Spec{Method: "m", Params: []int{g, k, i}}
+					}
+					ctx, cancel := context.WithTimeout(context.Background(), 500*time.Millisecond)
+					rsps, err := cli.Batch(ctx, specs)
+					cancel()
+					if err != nil {
+						continue
+					}
+					for i, rsp := range rsps {
+						want := fmt.Sprintf("[%d,%d,%d]", g, k, i)
+						if rsp.Error() != nil || rsp.ResultString() != want {
+							select {
+							case bad <- fmt.Sprintf("entry %s got %s / %v", want, rsp.ResultString(), rsp.Error()):
+							default:
+							}
+						}
+					}
+				}
+			}(g)
+		}
+		wg.Wait()
+		cli.Close()
+		peer.Close()
+		res.Case(fmt.Sprintf("stress/%d", round), true, "8 goroutines x 6 batches x 16 entries")
+		res.Count("free-running-stress")
+		mu.Lock()
+		for id, n := range seen {
+			if n > 1 {
+				res.Violatef("two requests in flight shared an id", fmt.Sprintf("free-running stress round %d", round), "id %s used %d times", id, n)
+				break
+			}
+		}
+		mu.Unlock()
+		select {
+		case m := <-bad:
+			res.Violatef("a batch entry completed with another request's reply", fmt.Sprintf("free-running stress round %d", round), "%s", m)
+		default:
+		}
+		if len(res.Violations) > 0 {
+			return
+		}
+	}
+}
+
 func TestC04(t *testing.T) {
 	res := newResult("C04", "scenarios: sets of concurrently outstanding Call / CallResult / Batch / Notify operations against a scripted raw peer that answers in any order and grouping (bare objects, arrays), with error replies, duplicates, unknown ids, malformed members, replies carrying both result and error, server notifications and callbacks interleaved; under many schedules of reader, per-message delivery goroutines and callers. distinct = distinct event-log shape; non-trivial = at least two requests outstanding")
 	defer res.Write(t)
 	runCliProperty(t, res, "C04", false)
+	c04Stress(res, pick(10, 100))
 }
 
 func TestC05(t *testing.T) {
